@@ -36,6 +36,8 @@ for d in sorted(os.listdir(root)):
             status = 'detected' if r.returncode == 1 else ('MISSED' if r.returncode == 0 else 'inconclusive(exit %d)' % r.returncode)
             if meta.get('out_of_domain') and r.returncode == 0:
                 status = 'silent, as it should be (outside the quantifier)'
+            if meta.get('neutralised_by_fix') and r.returncode == 0:
+                status = 'silent, as it should be (harmless since fix %s)' % meta['neutralised_by_fix']['commit']
             rows.append((d, p, status, '%.0fs' % (time.time() - t0), why[0][:200] if why else ''))
         meta['check_result'] = res
         json.dump(meta, open(os.path.join(dd, 'meta.json'), 'w'), indent=1)
